@@ -34,7 +34,9 @@ DATES = ["12.12.2020", "31.04.2020", "29.02.2019", "29.2.", "31.6.", "30.02.", "
          "jan 31"]
 DURS = ["1 day", "2 nights", "three days", "eine nacht", "zwei wochen", "half an hour",
         "half a day", "1/2 h", "30 m", "3 months", "45 minutes", "for 2 days", "für 3 tage",
-        "for one night", "for 90 minutes", "0 days", "a week"]
+        "for one night", "for 90 minutes", "0 days", "a week", "for 4000000 days",
+        "für 99999999999 tage", "for 999999 months", "for 120000 weeks", "for 87600000 hours",
+        "999999999 m"]
 LABELS = ["#fun", "#work", "#a-b", "#_x1", "#1st", "#", "#fun#work", "# tag", "#Überraschung"]
 INERT = ["beers", "and", "burgers", "lunch", "with", "bob", "call", "zahnarzt", "meeting",
          "xyzzy", "gargelbabel", "kaffee", "-", "--", "q3", "review"]
